@@ -114,11 +114,17 @@ impl<'tree, D: Doc> MetaVarEnv<'tree, D> {
     var_matchers: &HashMap<MetaVariableID, M>,
   ) -> bool {
     let mut env = Cow::Borrowed(self);
-    for (var_id, candidate) in &self.single_matched {
-      if let Some(m) = var_matchers.get(var_id) {
-        if m.match_node_with_env(candidate.clone(), &mut env).is_none() {
-          return false;
-        }
+    // A constraint can bind meta variables that another constraint reads, so evaluate them
+    // in a fixed order (sorted by variable name) instead of the hash map's iteration order.
+    let mut constrained: Vec<_> = self
+      .single_matched
+      .iter()
+      .filter_map(|(var_id, candidate)| Some((var_id, candidate, var_matchers.get(var_id)?)))
+      .collect();
+    constrained.sort_by(|a, b| a.0.cmp(b.0));
+    for (_, candidate, m) in constrained {
+      if m.match_node_with_env(candidate.clone(), &mut env).is_none() {
+        return false;
       }
     }
     if let Cow::Owned(env) = env {
